@@ -547,3 +547,207 @@ func (c *Ctx) constMapUpdates(pkg string, fns []string) map[string]map[string]st
 	}
 	return out
 }
+
+// ruleCheckErrorsPropagate implements C12.R6: the verdict of one checker call is never overwritten unseen. The result of a call
+// of a check function (one that takes and returns ProcessTypeInfo) must not be handed to the next check call, or be dropped,
+// before its currentType has been compared with PTERROR: the callee starts from the info it is given and replaces currentType.
+func ruleCheckErrorsPropagate(c *Ctx, rule string) {
+	r := c.R
+	tiT := c.NamedType("bytecode", "ProcessTypeInfo")
+	ptErr := c.constByName("bytecode", "PTERROR")
+	if tiT == nil || ptErr == nil {
+		r.Ob(rule, "anchor bytecode.ProcessTypeInfo / PTERROR", "").Und("not found")
+		return
+	}
+	st := tiT.Underlying().(*types.Struct)
+	ctIdx := -1
+	for i := 0; i < st.NumFields(); i++ {
+		if st.Field(i).Name() == "currentType" {
+			ctIdx = i
+		}
+	}
+	isCheckFn := func(f *ssa.Function) bool {
+		if f == nil || !c.isRepoFn(f) || f.Signature.Results().Len() != 1 || !types.Identical(f.Signature.Results().At(0).Type(), tiT) {
+			return false
+		}
+		for i := 0; i < f.Signature.Params().Len(); i++ {
+			if types.Identical(f.Signature.Params().At(i).Type(), tiT) {
+				return true
+			}
+		}
+		return false
+	}
+	isErrConst := func(v ssa.Value) bool {
+		k, ok := v.(*ssa.Const)
+		return ok && k.Value != nil && types.Identical(k.Type(), ptErr.Type()) && constant.Compare(k.Value, token.EQL, ptErr.Val())
+	}
+	// a callee whose entry block compares the currentType of the info it is given with PTERROR
+	calleeTestsInput := func(f *ssa.Function) bool {
+		if f == nil || len(f.Blocks) == 0 {
+			return false
+		}
+		b := f.Blocks[0]
+		iff, ok := b.Instrs[len(b.Instrs)-1].(*ssa.If)
+		if !ok {
+			return false
+		}
+		bo, ok := iff.Cond.(*ssa.BinOp)
+		if !ok || (bo.Op != token.EQL && bo.Op != token.NEQ) {
+			return false
+		}
+		for _, pair := range [][2]ssa.Value{{bo.X, bo.Y}, {bo.Y, bo.X}} {
+			if !isErrConst(pair[1]) {
+				continue
+			}
+			s := exprStr(pair[0])
+			for _, p := range f.Params {
+				if types.Identical(p.Type(), tiT) && s == p.Name()+".currentType" {
+					return true
+				}
+			}
+		}
+		return false
+	}
+	ncalls := 0
+	for _, fn := range c.SrcFuncs("bytecode") {
+		k := 0
+		instrsOf(fn, func(in ssa.Instruction) {
+			call, ok := in.(*ssa.Call)
+			if !ok || !isCheckFn(call.Call.StaticCallee()) {
+				return
+			}
+			ncalls++
+			k++
+			// holders of the result: the value, phis containing it, locals it is stored into
+			vals := map[ssa.Value]bool{call: true}
+			allocs := map[*ssa.Alloc]bool{}
+			for changed := true; changed; {
+				changed = false
+				instrsOf(fn, func(x ssa.Instruction) {
+					switch y := x.(type) {
+					case *ssa.Phi:
+						if !vals[y] {
+							for _, e := range y.Edges {
+								if vals[e] {
+									vals[y] = true
+									changed = true
+								}
+							}
+						}
+					case *ssa.Store:
+						if a, ok := y.Addr.(*ssa.Alloc); ok && vals[y.Val] && !allocs[a] {
+							allocs[a] = true
+							changed = true
+						}
+					}
+				})
+			}
+			holds := func(v ssa.Value) bool {
+				if vals[v] {
+					return true
+				}
+				if u, ok := v.(*ssa.UnOp); ok && u.Op == token.MUL {
+					if a, ok := u.X.(*ssa.Alloc); ok && allocs[a] {
+						return true
+					}
+				}
+				return false
+			}
+			isTestOfResult := func(iff *ssa.If) bool {
+				b, ok := iff.Cond.(*ssa.BinOp)
+				if !ok || (b.Op != token.EQL && b.Op != token.NEQ) {
+					return false
+				}
+				for _, pair := range [][2]ssa.Value{{b.X, b.Y}, {b.Y, b.X}} {
+					if !isErrConst(pair[1]) {
+						continue
+					}
+					switch x := pair[0].(type) {
+					case *ssa.Field:
+						if x.Field == ctIdx && holds(x.X) {
+							return true
+						}
+					case *ssa.UnOp:
+						if fa, ok := x.X.(*ssa.FieldAddr); ok && fa.Field == ctIdx {
+							if a, ok := fa.X.(*ssa.Alloc); ok && allocs[a] {
+								return true
+							}
+						}
+					}
+				}
+				return false
+			}
+			ob := r.Ob(rule, fmt.Sprintf("%s: verdict of check call #%d (%s) is looked at before it is replaced", fnName(fn), k, call.Call.StaticCallee().Name()), c.pos(call.Pos()))
+			problem := ""
+			seen := map[*ssa.BasicBlock]bool{}
+			var walk func(b *ssa.BasicBlock, from int)
+			walk = func(b *ssa.BasicBlock, from int) {
+				for i := from; i < len(b.Instrs) && problem == ""; i++ {
+					switch x := b.Instrs[i].(type) {
+					case *ssa.If:
+						if isTestOfResult(x) {
+							return
+						}
+					case *ssa.Return:
+						for _, res := range x.Results {
+							if holds(res) {
+								return // handed to the caller, who is held to the same rule
+							}
+						}
+						return // another verdict takes precedence on this path (error propagation from several operands is C12.R1's table)
+					case *ssa.Store:
+						if a, ok := x.Addr.(*ssa.Alloc); ok && allocs[a] && !vals[x.Val] {
+							// the local is overwritten with something else
+							if oc, ok := x.Val.(*ssa.Call); ok && isCheckFn(oc.Call.StaticCallee()) {
+								continue // reported at the call below
+							}
+						}
+					case *ssa.Call:
+						if x != call && isCheckFn(x.Call.StaticCallee()) {
+							for _, a := range x.Call.Args {
+								if types.Identical(a.Type(), tiT) && holds(a) {
+									if calleeTestsInput(x.Call.StaticCallee()) {
+										return // the callee looks at the verdict it is given before doing anything else
+									}
+									problem = "it is passed on to " + x.Call.StaticCallee().Name() + " [" + c.pos(x.Pos()) + "] untested: the callee replaces currentType, so an error found by the earlier call is masked by whatever the later statements check to"
+									return
+								}
+							}
+						}
+					}
+				}
+				if problem != "" {
+					return
+				}
+				for _, s := range b.Succs {
+					if !seen[s] {
+						seen[s] = true
+						walk(s, 0)
+					}
+				}
+			}
+			idx := 0
+			for i, x := range call.Block().Instrs {
+				if x == ssa.Instruction(call) {
+					idx = i + 1
+				}
+			}
+			walk(call.Block(), idx)
+			used := false
+			for _, ref := range *call.Referrers() {
+				if _, dbg := ref.(*ssa.DebugRef); !dbg {
+					used = true
+				}
+			}
+			if !used {
+				problem = "the result is never used: an error found here is dropped"
+			}
+			if problem == "" {
+				ob.OKnt("every path from the call reaches a comparison of its currentType with PTERROR, or returns it, before another check call receives it")
+			} else {
+				ob.Bad(problem)
+			}
+		})
+	}
+	r.Floor(rule, "calls of check functions", ncalls, 12)
+}
